@@ -399,10 +399,12 @@ def h_lists_paths_userdata(sx):
             lines = ['paths = ["features/a", "features/b"]', 'format = ["plain", "progress"]',
                      'outfiles = ["-", "o1.txt"]' if stdout_first else 'outfiles = ["o1.txt"]', 'name = ["n1", "n2", "n3"]',
                      'tags = ["@x", "@y"]', "[tool.behave.userdata]", 'foo = "file"', 'keep = "k"', 'MixedCase = "V"', 'UPPER_NAME = "u"',
-                     "ratio = 2.5", "count = 3"]        # (numbers written as TOML numbers: user data is text all the same)
+                     "ratio = 2.5", "count = 3",        # (numbers written as TOML numbers: user data is text all the same)
+                     '"behave.reporter.junit.show_hostname" = "false"']
         else:
             lines = ["paths = features/a\n  features/b", "format = plain\n  progress", "outfiles = -\n  o1.txt" if stdout_first else "outfiles = o1.txt", "name = n1\n  n2\n  n3",
-                     "tags = @x\n  @y", "[behave.userdata]", "foo = file", "keep = k", "MixedCase = V", "UPPER_NAME = u", "ratio = 2.5", "count = 3"]
+                     "tags = @x\n  @y", "[behave.userdata]", "foo = file", "keep = k", "MixedCase = V", "UPPER_NAME = u", "ratio = 2.5", "count = 3",
+                     "behave.reporter.junit.show_hostname = false"]
         with_default_tags = bool(sx.bool("file_default_tags"))
         if with_default_tags:
             # default_tags is the fallback for "no tags given anywhere": the file's own tags (and the command line) win over it
@@ -416,7 +418,7 @@ def h_lists_paths_userdata(sx):
         if cmd_tags:
             args += ["--tags", "@cmd"]
         if cmd_define:
-            args += ["-D", "foo=cmd", "-D", "new", "-D", "UPPER_NAME=cmd"]
+            args += ["-D", "foo=cmd", "-D", "new", "-D", "UPPER_NAME=cmd", "-D", "behave.reporter.junit.show_hostname=true"]
         if junit:
             args += ["--junit"]
         if nocapture:
@@ -451,6 +453,12 @@ def h_lists_paths_userdata(sx):
             sx.check(list(cfg.tags or []) == ["@x", "@y"], "C20.file-tags-win-over-default-tags",
                      detail=dict(det, got=cfg.tags, default_tags_in_file=with_default_tags))
         sx.check(cfg.userdata.get("keep") == "k", "C20.file-userdata-kept", detail=dict(det, got=dict(cfg.userdata)))
+        if junit:
+            # user data that configures a reporter: the reporter sees the command-line definition, too
+            from behave.reporter.junit import JUnitReporter
+            reps_ = [r for r in cfg.reporters if isinstance(r, JUnitReporter)]
+            sx.check(len(reps_) == 1 and bool(reps_[0].show_hostname) == bool(cmd_define), "C20.define-overrides-file-userdata",
+                     detail=dict(det, junit_show_hostname=[getattr(r, "show_hostname", None) for r in reps_], expected=bool(cmd_define)))
         # values are text whatever the file format; the typed getters convert (or refuse)
         sx.check(cfg.userdata.get("ratio") == "2.5" and cfg.userdata.get("count") == "3", "C20.file-userdata-kept",
                  detail=dict(det, ratio=repr(cfg.userdata.get("ratio")), count=repr(cfg.userdata.get("count"))))
